@@ -160,6 +160,7 @@ func runC04(c *Ctx) {
 		"router.(*dealer).syncCall":              "invariant: policies admitted by register are exactly the switch arms (decided by C03.R4)",
 		"router.(*realm).handleInboundMessages":  "compiler-generated: blocking select matched no case",
 		"wamp.secureInt63n":                      "n is the constant MaxID; crypto/rand failure",
+		"wamp.GlobalID":                          "crypto/rand failure (the bounded random draw written out in GlobalID itself)",
 		"wamp.RecvTimeout":                       "compiler-generated: blocking select matched no case",
 		"transport/serialize.listToMsg":          "invariant: message struct fields are ID/URI/MessageType/string/Dict/List (decided by C14)",
 		"transport.(*websocketPeer).recvHandler": "compiler-generated: blocking select matched no case",
